@@ -193,8 +193,73 @@ def run(cx):
         oks = len(sw) == 1 and {show(cx.arg(sw[0], 0)), show(cx.arg(sw[0], 1))} == {'(field contact_pos (param self))', '(field contact_neg (param self))'} or \
             (len(sw) == 1 and find('(field contact_pos _)', ('x', cx.arg(sw[0], 0), cx.arg(sw[0], 1))) is not None and find('(field contact_neg _)', ('x', cx.arg(sw[0], 0), cx.arg(sw[0], 1))) is not None)
         cx.ob('COMUT', 'InscribedCircle::reverse_in_place', okr and oks, 'reverse_in_place reverses the ray AND swaps the contacts', where=b.file)
+    run_extra(cx)
     b = cx.fn(f'{IC}::new')
     if b:
         cx.expect('EXPR', 'InscribedCircle::new', cx.retval(b),
                   '(agg * (spanning_ray (param spanning_ray)) (contact_pos (param contact_pos)) (contact_neg (param contact_neg)) (circle (param circle)))',
                   'new stores its arguments field by field', where=b.file)
+
+
+def run_extra(cx):
+    from vpa.core import leaves
+    # ---------------------------------------------------------------- tolerance provenance
+    n = 0
+    for b in E.user_bodies(cx.facts):
+        if not b.name.startswith('airfoil::'):
+            continue
+        for glob, argk in (('airfoil::helpers::inscribed_from_spanning_ray', (2,)), ('airfoil::helpers::refine_stations', (3, 4))):
+            for s in b.calls(glob):
+                n += 1
+                cx.analysed_fns.add(b.name)
+                for k in argk:
+                    a = cx.arg(s, k)
+                    lv = leaves(a)
+                    params = sorted({l[2] for l in lv if l[0] == 'param'})
+                    fields = [l for l in lv if l[0] == 'field']
+                    allowed = all(('tol' in p) and p not in ('check_tol',) for p in params)
+                    is_edge = b.impl_trait is not None and b.impl_trait.endswith('EdgeLocate')
+                    if is_edge:
+                        allowed = params == ['af_tol'] or params == []
+                    cx.ob('EXPR', f'tolerance:{b.name.split("::")[-2]}::{b.name.split("::")[-1]}:{glob.split("::")[-1]}:arg{k}', allowed and not fields and bool(params),
+                          f'{b.name}: the tolerance handed to {glob.split("::")[-1]} derives only from the analysis tolerance parameter (stations are inscribed within the ANALYSIS tolerance, not a fitting or user threshold)',
+                          where=s, found=f'{show(a)} (depends on {params}{" and fields " + str([show(f) for f in fields]) if fields else ""})')
+    cx.floor('EXPR', 'tolerance:sites', n, 6, 'calls of inscribed_from_spanning_ray / refine_stations in airfoil')
+    # ---------------------------------------------------------------- camber orientation criteria
+    b = cx.fn('airfoil::orientation::TMaxFwd::orient_camber_line')
+    if b:
+        rv = b.calls('airfoil::helpers::reverse_inscribed_circles')
+        ok = len(rv) == 1
+        if ok:
+            CAM = '(unwrap (call *curve_from_inscribed_circles (param stations) _))'
+            TM = '(unwrap (call Option::ok_or (call *find_tmax_circle (param stations)) _))'
+            g = cx.guarded(b, rv[0].bb, f'(lt 0.5 (div (call *length_along (call *at_closest_to_point {CAM} (call *InscribedCircle::center {TM}))) (call *Curve2::length {CAM})))', True)
+            ok = g is not None
+        cx.ob('GUARD', 'TMaxFwd::orient_camber_line', ok,
+              'the stations are reversed exactly when the thickest station lies beyond half of the camber ARC LENGTH (length_along of its centre / camber length > 0.5), measured on the camber through the same stations',
+              where=b.file, found='; '.join(cx.show_guards(b, rv[0].bb))[:500] if rv else None)
+    b = cx.fn('airfoil::orientation::DirectionFwd::orient_camber_line')
+    if b:
+        rv = b.calls('airfoil::helpers::reverse_inscribed_circles')
+        ok = len(rv) == 1
+        if ok:
+            C0 = '(field coords (field center (field circle (unwrap (call Option::ok_or (call slice::first (param stations)) _)))))'
+            C1 = '(field coords (field center (field circle (unwrap (call Option::ok_or (call slice::last (param stations)) _)))))'
+            g = cx.guarded(b, rv[0].bb, f'(lt (call Matrix::dot (self direction) {C0}) (call Matrix::dot (self direction) {C1}))', True)
+            ok = g is not None
+        cx.ob('GUARD', 'DirectionFwd::orient_camber_line', ok, 'the stations are reversed exactly when the first centre is behind the last one along the forward direction', where=b.file,
+              found='; '.join(cx.show_guards(b, rv[0].bb))[:500] if rv else None)
+    b = cx.fn('airfoil::helpers::find_tmax_circle')
+    if b:
+        # a running maximum over all stations: the candidate replaces the best only under diameter > best so far
+        ok = False
+        for bi in b.live:
+            if bi not in b.reachable():
+                continue
+            for si, st in enumerate(b.blocks[bi]['stmts']):
+                if b.local_name(st['pl']['l']) == 'max_circle' and not st['pl']['p']:
+                    v = simplify(b.dag().rvalue(st['rv'], bi, si))
+                    if match('(agg *Option::Some (0 (itervar (param stations))))', v) is not None:
+                        g = [a for a, p in cx.guards(b, bi) if p and a[0] == 'lt']
+                        ok = any(match('(lt (anyphi (loop)) (mul 2.0 (field radius (field ball (field circle (itervar (param stations)))))))', a) is not None for a in g)
+        cx.ob('EXPR', 'find_tmax_circle', ok, 'the thickest station is a running maximum over ALL stations by diameter (replaced only under strictly larger)', where=b.file)
